@@ -13,6 +13,16 @@
 #include "report.hpp"
 #include "C14_murmur_ref.hpp"
 
+namespace xtl { namespace detail {
+    // size-field storage for any capacity: the library's own class, selected through an unused flag value (same device as the C01 harness)
+    template <>
+    struct select_storage<64>
+    {
+        template <class T, std::size_t N>
+        using type = fixed_string_storage_impl<T[N + 1]>;
+    };
+} }
+
 #include <algorithm>
 #include <cstdint>
 #include <cstdio>
@@ -479,7 +489,8 @@ struct GCase
 {
     int fn;
     std::size_t L;
-    int side;        // 0: key ends at the last byte before an inaccessible page; 1: key starts at the first byte after one
+    int side;        // 0: key ends at the last byte before an inaccessible page; 1: key starts at the first byte after one;
+                     // length 0 only: 2: key pointer == nullptr; 3: key pointer in the middle of an inaccessible page (odd address)
     uint64_t seed;
     int ck;          // 0 counting pattern 01 02 03 .., 1 all FF
 };
@@ -489,6 +500,22 @@ struct Shared
     volatile uint64_t res[1];
 };
 
+static std::string gcls(const GCase& g)
+{
+    if (g.side == 2) return "len=0,null-pointer";
+    if (g.side == 3) return "len=0,inaccessible-address";
+    return cls_name(g.fn, g.L);
+}
+static std::string gwhere(const GCase& g, std::size_t PG)
+{
+    switch (g.side)
+    {
+    case 0: return ", last key byte = last byte of a page, next page inaccessible (key address % 8 == " + num((long long)((PG - g.L) % 8)) + ")";
+    case 1: return ", first key byte = first byte of a page, previous page inaccessible (key address % 8 == 0)";
+    case 2: return ", EMPTY key described by (nullptr, 0)";
+    default: return ", EMPTY key described by (pointer into an inaccessible page, 0)";
+    }
+}
 static std::string gcontent(const GCase& g) { return g.ck == 0 ? counting_asc(g.L) : std::string(g.L, char(0xff)); }
 static std::vector<std::string> greplay(const GCase& g)
 {
@@ -521,7 +548,7 @@ static void run_guard(const std::vector<GCase>& cases)
                 const GCase& g = cases[i];
                 std::string c = gcontent(g);
                 std::memset(page, 0xEE, PG);
-                unsigned char* key = g.side == 0 ? page + PG - g.L : page;
+                unsigned char* key = g.side == 0 ? page + PG - g.L : g.side == 1 ? page : g.side == 2 ? nullptr : area + 2 * PG + 1237;
                 if (g.L) std::memcpy(key, c.data(), g.L);
                 sh->idx = long(i);
                 sh->res[i] = call(g.fn, key, g.L, g.seed);
@@ -534,7 +561,7 @@ static void run_guard(const std::vector<GCase>& cases)
         long reached = sh->idx;
         std::size_t ok_end;   // cases [start, ok_end) returned a value
         if (WIFEXITED(st) && WEXITSTATUS(st) == 0 && reached == long(cases.size())) ok_end = cases.size();
-        else if (WIFSIGNALED(st) && reached >= long(start) && reached < long(cases.size())) ok_end = std::size_t(reached);
+        else if ((WIFSIGNALED(st) || (WIFEXITED(st) && WEXITSTATUS(st) != 0)) && reached >= long(start) && reached < long(cases.size())) ok_end = std::size_t(reached);
         else { std::fprintf(stderr, "guard child ended unexpectedly (status %d, reached %ld)\n", st, reached); std::exit(2); }
         for (std::size_t i = start; i < ok_end; ++i)
         {
@@ -544,10 +571,10 @@ static void run_guard(const std::vector<GCase>& cases)
             uint64_t exp = ref(g.fn, cp, g.L, g.seed);
             ++g_evals;
             if (sh->res[i] != exp)
-                vf::violation(std::string("C14/") + FN_NAME[g.fn] + "/" + cls_name(g.fn, g.L) + "/wrong-value",
-                              std::string(FN_NAME[g.fn]) + "(key, " + num((long long)g.L) + ", seed " + h64(g.seed) + ") with key bytes " + spaced(cp, g.L) +
-                                  (g.side == 0 ? ", key ending at a page boundary (address % 8 == " + num((long long)((PG - g.L) % 8)) + ")" : ", key starting at a page boundary (address % 8 == 0)") + ": returned " + h64(sh->res[i]) +
-                                  ", reference " + REF_NAME[g.fn] + " gives " + h64(exp),
+                vf::violation(std::string("C14/") + FN_NAME[g.fn] + "/" + gcls(g) + "/wrong-value",
+                              std::string(FN_NAME[g.fn]) + "(key, " + num((long long)g.L) + ", seed " + h64(g.seed) + ") with key bytes " + spaced(cp, g.L) + gwhere(g, PG) +
+                                  ": returned " + h64(sh->res[i]) + ", reference " + REF_NAME[g.fn] + " gives " + h64(exp) +
+                                  (g.side >= 2 ? " (which is also what the function returns for the empty key at every other address that was tried)" : ""),
                               greplay(g));
         }
         if (ok_end < cases.size())
@@ -555,11 +582,11 @@ static void run_guard(const std::vector<GCase>& cases)
             const GCase& g = cases[ok_end];
             std::string c = gcontent(g);
             ++g_evals;
-            vf::violation(std::string("C14/") + FN_NAME[g.fn] + "/" + cls_name(g.fn, g.L) + "/guard-page-fault",
+            vf::violation(std::string("C14/") + FN_NAME[g.fn] + "/" + gcls(g) + "/guard-page-fault",
                           std::string(FN_NAME[g.fn]) + "(key, " + num((long long)g.L) + ", seed " + h64(g.seed) + ") with key bytes " +
-                              spaced(reinterpret_cast<const uint8_t*>(c.data()), g.L) +
-                              (g.side == 0 ? ", last key byte = last byte of a page, next page inaccessible" : ", first key byte = first byte of a page, previous page inaccessible") +
-                              ": the call was killed by signal " + num(WTERMSIG(st)) + " - it accessed memory outside [key, key+" + num((long long)g.L) + ")",
+                              spaced(reinterpret_cast<const uint8_t*>(c.data()), g.L) + gwhere(g, PG) +
+                              (WIFSIGNALED(st) ? ": the call was killed by signal " + num(WTERMSIG(st)) : ": the call ended the process with status " + num(WEXITSTATUS(st)) + " (sanitizer abort)") +
+                              " - it accessed memory outside [key, key+" + num((long long)g.L) + ")",
                           greplay(g));
             start = ok_end + 1;
         }
@@ -579,6 +606,9 @@ static void part_guard(std::size_t lmax, bool wide)
             for (int side = 0; side < 2; ++side)
                 for (uint64_t s : seeds)
                     for (int ck = 0; ck < 2; ++ck) cases.push_back(GCase{fn, L, side, s, ck});
+        // the empty key at addresses that cannot be dereferenced at all
+        for (int side = 2; side < 4; ++side)
+            for (uint64_t s : seeds) { cases.push_back(GCase{fn, 0, side, s, 0}); vf::stat("empty_key_null_or_inaccessible_cases", 1); }
     }
     run_guard(cases);
     vf::stat("guard_page_cases", (long long)cases.size());
@@ -810,6 +840,158 @@ static void part_fslong()
     vf::sample("std::hash of equal strings of every length 0..400 in xbasic_fixed_string<char,400,buffer> objects constructed at offsets 0..7 of a byte array and in xbasic_fixed_string<char,400> -> one value per string", 12);
 }
 
+// ------------------------------------------------------------------------------------------------ part: fswide (character types x capacities x layouts)
+// equal strings must hash equally in every (capacity, layout): the hash may depend on size() and the characters only
+template <class CT> struct ct_name;
+template <> struct ct_name<char> { static const char* get() { return "char"; } };
+template <> struct ct_name<char16_t> { static const char* get() { return "char16_t"; } };
+template <> struct ct_name<char32_t> { static const char* get() { return "char32_t"; } };
+template <> struct ct_name<wchar_t> { static const char* get() { return "wchar_t"; } };
+
+template <class CT>
+static std::basic_string<CT> wide_content(std::size_t L)
+{
+    std::basic_string<CT> s(L, CT(1));
+    for (std::size_t i = 0; i < L; ++i)
+    {
+        CT v = CT((uint32_t(i + 1) * 2654435761u) >> 8);   // all characters of a string differ in their low bytes, high bytes are used
+        s[i] = v == CT(0) ? CT(1) : v;
+    }
+    return s;
+}
+
+struct WObs { std::string layout, where; uint64_t h; };
+
+template <class CT, std::size_t N, int ST>
+static void fsw_type(const char* layout, const std::basic_string<CT>& c, std::vector<WObs>& out)
+{
+    if (c.size() > N) return;
+    typedef xtl::xbasic_fixed_string<CT, N, ST> S;
+    for (int h = 0; h < 2; ++h)
+    {
+        S* s = new S();
+        const char* hn;
+        if (h == 0) { hn = "S(ptr,len)"; *s = S(c.data(), c.size()); }
+        else
+        {
+            hn = "S(\"ZZ..\").assign(ptr,len)";
+            std::basic_string<CT> z(std::min<std::size_t>(N, 70), CT('Z'));
+            *s = S(z.data(), z.size());
+            s->assign(c.data(), c.size());
+        }
+        bool valid = s->size() == c.size() && std::equal(c.begin(), c.end(), s->data());
+        if (valid)
+        {
+            WObs o;
+            o.layout = layout;
+            o.where = std::string("xbasic_fixed_string<") + ct_name<CT>::get() + "," + num((long long)N) + "> (" + layout + " layout) built by " + hn;
+            o.h = uint64_t(std::hash<S>()(*s));
+            out.push_back(o);
+        }
+        else ++g_fs_skipped;
+        delete s;
+    }
+}
+
+enum { ST_PACKED = xtl::buffer | xtl::store_size, ST_FIELD = 64, ST_STRLEN = xtl::buffer };
+
+template <class CT>
+static void fsw_judge(const std::basic_string<CT>& c, const std::vector<WObs>& o, bool verbose)
+{
+    for (std::size_t i = 0; i < o.size(); ++i)
+    {
+        ++g_evals;
+        if (verbose) std::printf("%s -> %s\n", o[i].where.c_str(), h64(o[i].h).c_str());
+        if (i > 0 && o[i].h != o[0].h)
+        {
+            std::string first;
+            for (std::size_t k = 0; k < std::min<std::size_t>(c.size(), 6); ++k) first += (k ? " " : "") + h64(uint64_t(typename std::make_unsigned<CT>::type(c[k])));
+            vf::violation(std::string("C14/std::hash<fixed_string>/") + ct_name<CT>::get() + "," + o[i].layout + "/differs-for-equal-strings",
+                          std::string("the ") + num((long long)c.size()) + "-character " + ct_name<CT>::get() + " string (characters " + first + " ..) hashes to " + h64(o[i].h) + " as " +
+                              o[i].where + " but to " + h64(o[0].h) + " as " + o[0].where + " (both compare equal to the intended characters)",
+                          {"--fsw-one", ct_name<CT>::get(), num((long long)c.size())});
+        }
+    }
+    if (c.size() >= 1) ++g_distinct;
+}
+
+// character types of more than one byte: packed layout (size in the last element) and size-field layout
+template <class CT>
+static void fsw_len16(std::size_t L, bool verbose)
+{
+    std::basic_string<CT> c = wide_content<CT>(L);
+    std::vector<WObs> o;
+    fsw_type<CT, 300, ST_FIELD>("size-field", c, o);
+    fsw_type<CT, 300, ST_PACKED>("packed", c, o);
+    fsw_type<CT, 255, ST_PACKED>("packed", c, o);
+    fsw_type<CT, 255, ST_FIELD>("size-field", c, o);
+    fsw_type<CT, 40, ST_PACKED>("packed", c, o);
+    fsw_type<CT, 40, ST_FIELD>("size-field", c, o);
+    fsw_type<CT, 16, ST_PACKED>("packed", c, o);
+    fsw_type<CT, 16, ST_FIELD>("size-field", c, o);
+    fsw_type<CT, 15, ST_PACKED>("packed", c, o);
+    fsw_type<CT, 15, ST_FIELD>("size-field", c, o);
+    fsw_type<CT, 8, ST_PACKED>("packed", c, o);
+    fsw_type<CT, 8, ST_FIELD>("size-field", c, o);
+    fsw_type<CT, 65536, ST_PACKED>("size-field (the library's own choice for N >= 65536)", c, o);
+    fsw_judge<CT>(c, o, verbose);
+}
+// 4-byte character types: only the size-field layout is well-formed on this tree (the packed one needs 1u << 32)
+template <class CT>
+static void fsw_len32(std::size_t L, bool verbose)
+{
+    std::basic_string<CT> c = wide_content<CT>(L);
+    std::vector<WObs> o;
+    fsw_type<CT, 300, ST_FIELD>("size-field", c, o);
+    fsw_type<CT, 255, ST_FIELD>("size-field", c, o);
+    fsw_type<CT, 40, ST_FIELD>("size-field", c, o);
+    fsw_type<CT, 16, ST_FIELD>("size-field", c, o);
+    fsw_type<CT, 15, ST_FIELD>("size-field", c, o);
+    fsw_type<CT, 8, ST_FIELD>("size-field", c, o);
+    fsw_judge<CT>(c, o, verbose);
+}
+static void fsw_len8(std::size_t L, bool verbose)
+{
+    std::basic_string<char> c = wide_content<char>(L);
+    std::vector<WObs> o;
+    fsw_type<char, 300, ST_PACKED>("size-field (the library's own choice for N >= 256)", c, o);
+    fsw_type<char, 300, ST_STRLEN>("strlen", c, o);
+    fsw_type<char, 255, ST_PACKED>("packed", c, o);
+    fsw_type<char, 255, ST_FIELD>("size-field", c, o);
+    fsw_type<char, 255, ST_STRLEN>("strlen", c, o);
+    fsw_type<char, 40, ST_PACKED>("packed", c, o);
+    fsw_type<char, 40, ST_FIELD>("size-field", c, o);
+    fsw_type<char, 40, ST_STRLEN>("strlen", c, o);
+    fsw_type<char, 16, ST_PACKED>("packed", c, o);
+    fsw_type<char, 16, ST_FIELD>("size-field", c, o);
+    fsw_type<char, 16, ST_STRLEN>("strlen", c, o);
+    fsw_type<char, 15, ST_PACKED>("packed", c, o);
+    fsw_type<char, 15, ST_FIELD>("size-field", c, o);
+    fsw_type<char, 15, ST_STRLEN>("strlen", c, o);
+    fsw_type<char, 8, ST_PACKED>("packed", c, o);
+    fsw_type<char, 8, ST_FIELD>("size-field", c, o);
+    fsw_type<char, 8, ST_STRLEN>("strlen", c, o);
+    fsw_judge<char>(c, o, verbose);
+}
+static void fsw_one(const std::string& ct, std::size_t L, bool verbose)
+{
+    if (ct == "char") fsw_len8(L, verbose);
+    else if (ct == "char16_t") fsw_len16<char16_t>(L, verbose);
+    else if (ct == "char32_t") fsw_len32<char32_t>(L, verbose);
+    else if (ct == "wchar_t") fsw_len32<wchar_t>(L, verbose);
+    else { std::fprintf(stderr, "unknown character type %s\n", ct.c_str()); std::exit(2); }
+}
+static void part_fswide()
+{
+    const char* cts[4] = {"char", "char16_t", "char32_t", "wchar_t"};
+    for (const char* ct : cts)
+        for (std::size_t L = 0; L <= 64; ++L) fsw_one(ct, L, false);
+    vf::stat("fs_wide_strings", 4 * 65);
+    vf::stat("fs_layout_skipped_string_not_as_intended", g_fs_skipped);
+    vf::sample("std::hash of the equal char16_t strings of every length 0..64 in capacities 8,15,16,40,255,300,65536 x {packed, size-field} layouts, built 2 ways -> one value per string "
+               "(same for char incl. the strlen layout, and for char32_t / wchar_t in the size-field layout)", 12);
+}
+
 // ------------------------------------------------------------------------------------------------ reference self-test
 static uint64_t ref32_as_f(const uint8_t* p, std::size_t n, uint64_t s) { return c14ref::murmur2_32(p, n, uint32_t(s)); }
 static uint64_t ref64_as_f(const uint8_t* p, std::size_t n, uint64_t s) { return c14ref::murmur2_64a(p, n, s); }
@@ -881,6 +1063,7 @@ int main(int argc, char** argv)
             i += 5;
         }
         else if (a == "--fs-one") { fs_content(unhex(argv[++i]), true); part = ""; }
+        else if (a == "--fsw-one") { fsw_one(argv[i + 1], std::size_t(std::atoi(argv[i + 2])), true); part = ""; i += 2; }
         else if (a == "--fs-long-one") { fs_long_len(std::size_t(std::atoi(argv[++i])), true); part = ""; }
         else if (a == "--naligns") naligns = std::atoi(argv[++i]);
         else if (a == "--lmain") lmain = std::size_t(std::atoi(argv[++i]));
@@ -899,6 +1082,7 @@ int main(int argc, char** argv)
     else if (part == "fs") part_fs();
     else if (part == "long") part_long(lmin, lmax, lmain, naligns, wide, shard, nshard);
     else if (part == "fslong") part_fslong();
+    else if (part == "fswide") part_fswide();
     else if (part != "") { std::fprintf(stderr, "unknown part %s\n", part.c_str()); return 2; }
     for (int fn = 0; fn < NFN; ++fn)
         for (int c = 0; c < 8; ++c)
